@@ -277,6 +277,10 @@ def check_links(trees):
   calls = [n for n in ast.walk(fbc) if isinstance(n, ast.Call) and ast.unparse(n.func) == 'self._feedback_fn']
   if len(calls) != 1:
     raise TranslatorError('_InMemoryFeedback: self._feedback_fn must be called exactly once (in done)')
+  # create_trial / _complete_trial are reached only from next / done+skip
+  mod_src = ast.unparse(lb)
+  if len(re.findall(r'\.create_trial\(', mod_src)) != 1 or len(re.findall(r'\._complete_trial\(', mod_src)) != 2:
+    raise TranslatorError('create_trial / _complete_trial have callers other than next / done / skip')
   # end_loop -> _set_active(False)
   el = common.find_func(fbc, 'end_loop')
   if 'self._study._set_active(False)' not in ast.unparse(el):
@@ -343,6 +347,12 @@ def extract():
       'evolutionProposeAtomic': evo['_propose']['atomic'],
       'evolutionFeedbackAtomic': evo['_feedback']['atomic'],
   }
+  # A region whose only callers (verified by check_links) call it inside the study lock is atomic
+  # even if its own `with` is narrowed.
+  if flags['nextReuseAtomic']:
+    flags['createTrialAtomic'] = True
+  if flags['doneCheckAndSetAtomic'] and flags['skipCheckAndSetAtomic']:
+    flags['completeTrialAtomic'] = True
   propose_counter_atomic = protected(by_kind['pr.count']) or protected(by_kind['ct.new'], ('study',))
   # A study-lock `with` around a call of create_trial / _complete_trial (which take the lock
   # themselves) needs a reentrant lock.
